@@ -155,11 +155,12 @@ def prove_one(task):
                     r["replayed"] = True
                     r["status"] = "failed"
                     r["detail"] = (r.get("detail") or "") + " | same function already has a replayed failing input: " + confirmed[1]["detail"]
-                elif n_replays < 80:
+                elif n_replays < 40:
                     tried = []
                     first = r.get("counterexample")
                     gen = candidate_models(ob.hyps, ob.goal, ex.input_syms)
-                    while n_replays < 80:
+                    t_rep = time.time()
+                    while n_replays < 40 and time.time() - t_rep < 60:
                         if first is not None:
                             cand, first = first, None
                         else:
